@@ -19,6 +19,7 @@ import KafkaVerif.Model.PullReader
 import KafkaVerif.Model.ReaderWorld
 import KafkaVerif.Model.ByteReader
 import KafkaVerif.Model.ByteHeader
+import KafkaVerif.Model.ByteWalk
 
 namespace KV.OracleC02
 open KV KV.C02
@@ -102,6 +103,9 @@ def parseFault (s : String) : Option (Nat × Fault) :=
   | [i, k] => do
     let idx ← i.toNat?
     if k.startsWith "cut" then pure (idx, .cut (← (k.drop 3).toString.toNat?))
+    -- the frame stops at the same byte but the connection stays open: the read deadline ends the round instead of EOF —
+    -- the complete records are delivered, the Conn is closed, `run` reconnects
+    else if k.startsWith "stall" then pure (idx, .cut (← (k.drop 5).toString.toNat?))
     -- OffsetOutOfRange followed by an unanswered ListOffsets: readOffsets fails at its deadline → conn.Close(); break readLoop
     else if k == "err1h" then pure (idx, .hang)
     else if k.startsWith "err" then pure (idx, .err (← (k.drop 3).toString.toNat?))
@@ -131,10 +135,14 @@ def parseStream (s : String) : Option (List (List Rec)) :=
     | [] => some (acc ++ [cur])
     | e :: rest =>
       if e == "|" then go rest [] (acc ++ [cur])
+      else if e.startsWith "E" then go rest cur acc      -- an error handed to the application: see `streamHasError`
       else match e.splitOn ":" with
         | [o, t] => do go rest (cur ++ [((← o.toInt?), (← t.toNat?))]) acc
         | _ => none
   go (s.splitOn ",") [] []
+
+/-- FetchMessage returned an error (`E<class>` in the stream): none of the scripted faults may reach the application -/
+def streamHasError (s : String) : Bool := (s.splitOn ",").any (·.startsWith "E")
 
 def strictlyIncreasing : List Rec → Bool
   | a :: b :: rest => a.1 < b.1 && strictlyIncreasing (b :: rest)
@@ -193,10 +201,10 @@ def brWalk : Nat → Option (H2 × Nat) → Bytes → List Tok
         | .ok (.v2 h, r') =>
           Tok.h2 h.base h.lod h.count.toNat (h.attrs % 8 != 0) h.plen ::
             brWalk fuel (if h.count.toNat = 0 then none else some (h, h.count.toNat)) r'.bs
-        | .ok (.v1 h, r') =>
+        | .ok (.v1 h hts, r') =>
           -- a v0/v1 message: the fixed header, then readMessageV1's `readBytesWith(key)`, `readBytesWith(val)`
           let rest := r'.bs
-          let ts : Int := if h.magic = 1 then (match RW.readI64 (bs.drop 18) with | some (t, _) => t | none => 0) else -1
+          let ts : Int := if h.magic = 1 then hts else -1
           Tok.h1 h.magic.toNat h.off (h.attrs % 8 != 0) ::
             if rest.isEmpty then [] else      -- nothing left: the stream ends, no `cut` token
             match BR.readBodyV1 ⟨rest, rest.length⟩ with
@@ -620,7 +628,13 @@ def step (line : String) : String :=
           let actual := tokenize tokCfg (bytes.length + 1) .hdr bytes
           let plainV2 := items.all fun it => match it with | .b2 _ _ false _ _ => true | .m .. => true | _ => false
           let go := brWalk (bytes.length + 1) none bytes
-          if plainV2 && go != expected then
+          -- the walk `walk_bytes` is about (Model/ByteWalk.lean): uncompressed v2 batches and v0/v1 messages
+          let wk := BR.walk (fun fts v => digestOf v.key v.value (fts + v.tsDelta) (v.headers.map fun x => ⟨x.1, x.2⟩))
+            (fun h ts k v => digestOf k v (if h.magic = 1 then ts else -1) [])
+            (bytes.length + 1) .hdr bytes
+          if plainV2 && wk != expected then
+            answer s!"walk-bytes-diff:{repr (wk.zip expected |>.find? (fun p => p.1 != p.2))}" false
+          else if plainV2 && go != expected then
             answer s!"go-bytes-diff:{repr (go.zip expected |>.find? (fun p => p.1 != p.2))}" false
           else if actual == expected then answer "same" true
           else answer s!"diff:{repr (actual.zip expected |>.find? (fun p => p.1 != p.2))}" false
@@ -650,7 +664,8 @@ def step (line : String) : String :=
             else if startOff < logFirst then logFirst else startOff
           let positions := startPos :: sets.map (·.2)
           let lens := (sets.zip (0 :: sets.map (·.1))).map fun (a, b) => a.1 - b
-          let holds := readerHolds all final positions lens segs iout && iclose == "ok"
+          let holds := readerHolds all final positions lens segs iout && iclose == "ok" &&
+            !streamHasError ((field iw "d").getD "")
           if sets.isEmpty then
             let br : RBroker := { ver := ver.toNat, items := withFirst, hwm := hwm, budgets := budgets, faults := faults,
                                   trunc := trunc, orig := withFirst }
